@@ -326,6 +326,10 @@ def unit_taint(ctx):
                     # positive control silent => the monitor cannot be trusted
                     raise Harness("positive control silent: %s_fast produced no UninitCondition" % tname)
                 continue
+            if any(not fns for kind, inner, entry, cnt, fns in errs):
+                # every frame of the harness has a symbol; an error without a single function name means memcheck could not
+                # read the symbols of the executable (e.g. the build directory was replaced under it): nothing can be attributed
+                raise Harness("memcheck reported an error without any symbolised frame for %s (symbols unreadable?)" % tname)
             for kind, inner, entry, cnt, fns in cond:
                 if tname in ALLOWED_DECISION and inner == tname:
                     tallied[tname]["allowed_decision_branches"] = tallied[tname].get("allowed_decision_branches", 0) + cnt
